@@ -495,7 +495,7 @@ def _group_body(prog, cu, bk):
     clo = prog.by_id.get(cu)
     if clo is None or not bk:
         return clo
-    consts = {i: r_table.FN_CONSTS[v] for i, v in bk if isinstance(v, str) and v in r_table.FN_CONSTS}
+    consts = {i: r_table.FN_CONSTS[getattr(v, 'key', None) or v] for i, v in bk if isinstance(v, str) and (getattr(v, 'key', None) or v) in r_table.FN_CONSTS}
     if len(consts) != len(bk):
         return clo
     return prog.view(clo, keep=lambda g: g.is_pub or bool(g.impl_trait), tag='spec:%r' % (bk,), upvar_consts=consts)
